@@ -26,7 +26,7 @@ type Ctx struct {
 	PkgByPath map[string]*packages.Package
 	Prog      *ssa.Program
 	SSAPkg    map[string]*ssa.Package
-	Funcs     []*ssa.Function          // every function of the module (incl. anonymous, instantiations)
+	Funcs     []*ssa.Function // every function of the module (incl. anonymous, instantiations)
 	opCache   map[*ssa.Function][]*ssa.Function
 	FuncByKey map[string]*ssa.Function // "actions.(*AckDeliveries).Execute", "actions.notifyPublish$1$1"
 	Overlay   map[string][]byte
